@@ -59,6 +59,10 @@ $(B)/bin/pip: $(B)/h/pip.o $(B)/libppl.a
 	@mkdir -p $(dir $@)
 	$(CXX) $(OPT) -o $@ $< $(B)/libppl.a -lgmpxx -lgmp $(LDSAN)
 
+$(B)/bin/widen: $(B)/h/widen.o $(B)/libppl.a
+	@mkdir -p $(dir $@)
+	$(CXX) $(OPT) -o $@ $< $(B)/libppl.a -lgmpxx -lgmp $(LDSAN)
+
 # obj family: allocator shim inside; LSan (plain) or ASan+LSan at link time
 $(B)/bin/obj_%: $(B)/h/obj_%.o $(B)/libppl.a
 	@mkdir -p $(dir $@)
